@@ -3,7 +3,12 @@ C16 — Monero wallets: scalar reduction, key derivation from the spend key / se
 derivation, watch-only wallets, address codec round trip, error kinds.
 `keccak256` and the Edwards arithmetic (`edMulBase`, `edAdd`, `edMul`) are opaque here: no theorem
 unfolds them, and none needs a hypothesis about them (the key-canonicity facts asked for in the
-work order turned out to be provable from the key layer's own definitions).
+work order turned out to be provable from the key layer's own definitions).  The only facts used
+about the arithmetic are that `edAdd` returns reduced coordinates and the point-by-point check that
+the eight small-order points fail the subgroup test of `edMulNoclamp`.
+The sub-address step `C = a·D` is libsodium's `crypto_scalarmult_ed25519_noclamp` (`edMulNoclamp`):
+it refuses a `D` that is the identity or lies outside the prime-order subgroup (`L·D ≠ (0,1)`), and
+an identity product.
 Helper lemmas: `BipVerif/Lemmas/Monero.lean`.
 -/
 import BipVerif.Lemmas.Monero
@@ -98,7 +103,9 @@ theorem subaddress_index_range (w : XmrWallet) (nv snv : Bytes) (minor major : N
   rfl
 
 /-- the derivation for `(major, minor) ≠ (0,0)`:
-`m = sc_reduce(keccak("SubAddr\0" ‖ a ‖ le32 major ‖ le32 minor))`, `D = B + m·G`, `C = a·D` -/
+`m = sc_reduce(keccak("SubAddr\0" ‖ a ‖ le32 major ‖ le32 minor))`, `D = B + m·G`, `C = a·D`.
+A successful derivation has moreover checked that `D` is a non-identity point of the prime-order
+subgroup (`L·D = (0,1)`), as libsodium's `crypto_scalarmult_ed25519_noclamp` demands. -/
 theorem subaddr_keys_spec (w : XmrWallet) (minor major : Nat) (hm : minor ≤ 2 ^ 32 - 1)
     (hM : major ≤ 2 ^ 32 - 1) (hne : ¬ (minor = 0 ∧ major = 0)) {s v : Bytes}
     (h : xmrSubaddrKeys w minor major = .ok (s, v)) :
@@ -107,7 +114,11 @@ theorem subaddr_keys_spec (w : XmrWallet) (minor major : Nat) (hm : minor ≤ 2 
       m ≠ 0 ∧ m < edL ∧
       s = edEncode (edAdd b (edMulBase m)) ∧
       v = edEncode (edMul (Bytes.toNatLE w.privView % 2 ^ 255) (edAdd b (edMulBase m))) ∧
-      edMul (Bytes.toNatLE w.privView % 2 ^ 255) (edAdd b (edMulBase m)) ≠ edIdentity := by
+      edMul (Bytes.toNatLE w.privView % 2 ^ 255) (edAdd b (edMulBase m)) ≠ edIdentity ∧
+      edAdd b (edMulBase m) ≠ edIdentity ∧
+      edMul edL (edAdd b (edMulBase m)) = edIdentity ∧
+      edMulNoclamp (Bytes.toNatLE w.privView % 2 ^ 255) (edAdd b (edMulBase m)) =
+        some (edMul (Bytes.toNatLE w.privView % 2 ^ 255) (edAdd b (edMulBase m))) := by
   rw [xmrSubaddrKeys_eq w minor major hm hM hne] at h
   split at h
   · cases h
@@ -119,10 +130,96 @@ theorem subaddr_keys_spec (w : XmrWallet) (minor major : Nat) (hm : minor ≤ 2 
     · rename_i hm0
       split at h
       · cases h
-      · rename_i hc
+      · rename_i c hc
         have := Except.ok.inj h
         simp only [Prod.mk.injEq] at this
-        exact ⟨hm0, MoneroLemmas.scReduce_lt _, this.1.symm, this.2.symm, hc⟩
+        obtain ⟨c1, c2, c3, c4⟩ := (edMulNoclamp_eq_some_iff _ _ _).mp hc
+        rw [edNorm_edAdd] at c1
+        rw [Nat.mod_mod] at c3 c4
+        subst c4
+        exact ⟨hm0, MoneroLemmas.scReduce_lt _, this.1.symm, this.2.symm, c3, c1, c2, hc⟩
+
+/-- the success case restated on the libsodium primitive: with `D = B + m·G`, the derivation
+succeeds exactly when `edMulNoclamp a D` does, and then returns `(enc D, enc C)` -/
+theorem subaddr_keys_of_noclamp (w : XmrWallet) (minor major : Nat) (hm : minor ≤ 2 ^ 32 - 1)
+    (hM : major ≤ 2 ^ 32 - 1) (hne : ¬ (minor = 0 ∧ major = 0)) {b C : EdPoint}
+    (hb : edDecodeLenient w.pubSpend = some b)
+    (hm0 : Bytes.toNatLE (scReduce (keccak256 (subaddrMsg w.privView major minor))) ≠ 0)
+    (hC : edMulNoclamp (Bytes.toNatLE w.privView % 2 ^ 255)
+      (edAdd b (edMulBase (Bytes.toNatLE (scReduce (keccak256 (subaddrMsg w.privView major minor))))))
+        = some C) :
+    xmrSubaddrKeys w minor major =
+      .ok (edEncode (edAdd b (edMulBase
+        (Bytes.toNatLE (scReduce (keccak256 (subaddrMsg w.privView major minor)))))), edEncode C) := by
+  rw [xmrSubaddrKeys_eq w minor major hm hM hne, hb]
+  dsimp only
+  rw [if_neg hm0, hC]
+
+/-- … in particular when `D` is a non-identity point of the prime-order subgroup and `a·D` is not
+the identity (the hypotheses under which the model before the repair already succeeded) -/
+theorem subaddr_keys_of_subgroup (w : XmrWallet) (minor major : Nat) (hm : minor ≤ 2 ^ 32 - 1)
+    (hM : major ≤ 2 ^ 32 - 1) (hne : ¬ (minor = 0 ∧ major = 0)) {b : EdPoint}
+    (hb : edDecodeLenient w.pubSpend = some b)
+    (hm0 : Bytes.toNatLE (scReduce (keccak256 (subaddrMsg w.privView major minor))) ≠ 0)
+    (hD : edAdd b (edMulBase (Bytes.toNatLE (scReduce (keccak256 (subaddrMsg w.privView major minor)))))
+      ≠ edIdentity)
+    (hL : edMul edL (edAdd b (edMulBase
+      (Bytes.toNatLE (scReduce (keccak256 (subaddrMsg w.privView major minor)))))) = edIdentity)
+    (hC : edMul (Bytes.toNatLE w.privView % 2 ^ 255) (edAdd b (edMulBase
+      (Bytes.toNatLE (scReduce (keccak256 (subaddrMsg w.privView major minor)))))) ≠ edIdentity) :
+    xmrSubaddrKeys w minor major =
+      .ok (edEncode (edAdd b (edMulBase
+            (Bytes.toNatLE (scReduce (keccak256 (subaddrMsg w.privView major minor)))))),
+           edEncode (edMul (Bytes.toNatLE w.privView % 2 ^ 255) (edAdd b (edMulBase
+            (Bytes.toNatLE (scReduce (keccak256 (subaddrMsg w.privView major minor)))))))) := by
+  apply subaddr_keys_of_noclamp w minor major hm hM hne hb hm0
+  rw [edMulNoclamp_eq_some_iff, edNorm_edAdd, Nat.mod_mod]
+  exact ⟨hD, hL, hC, rfl⟩
+
+/-- **a sub-address spend point outside the prime-order subgroup is refused** (libsodium's
+`crypto_scalarmult_ed25519_noclamp` returns `-1`, bip_utils raises `ValueError`): when
+`D = B + m·G` is the identity or `L·D ≠ (0,1)` — e.g. a public spend key with a small-order
+component handed to a watch-only wallet — no keys are produced, whatever the view key. -/
+theorem subaddr_refused_off_subgroup (w : XmrWallet) (minor major : Nat) (hm : minor ≤ 2 ^ 32 - 1)
+    (hM : major ≤ 2 ^ 32 - 1) (hne : ¬ (minor = 0 ∧ major = 0)) {b : EdPoint}
+    (hb : edDecodeLenient w.pubSpend = some b)
+    (hD : edAdd b (edMulBase (Bytes.toNatLE (scReduce (keccak256 (subaddrMsg w.privView major minor)))))
+        = edIdentity ∨
+      edMul edL (edAdd b (edMulBase
+        (Bytes.toNatLE (scReduce (keccak256 (subaddrMsg w.privView major minor)))))) ≠ edIdentity) :
+    xmrSubaddrKeys w minor major = .error .value := by
+  rw [xmrSubaddrKeys_eq w minor major hm hM hne, hb]
+  dsimp only
+  split
+  · rfl
+  · rw [edMulNoclamp_off_subgroup _ (by rw [edNorm_edAdd]; exact hD)]
+
+/-- the same at address level -/
+theorem subaddress_refused_off_subgroup (w : XmrWallet) (nv snv : Bytes) (minor major : Nat)
+    (hm : minor ≤ 2 ^ 32 - 1) (hM : major ≤ 2 ^ 32 - 1) (hne : ¬ (minor = 0 ∧ major = 0))
+    {b : EdPoint} (hb : edDecodeLenient w.pubSpend = some b)
+    (hD : edAdd b (edMulBase (Bytes.toNatLE (scReduce (keccak256 (subaddrMsg w.privView major minor)))))
+        = edIdentity ∨
+      edMul edL (edAdd b (edMulBase
+        (Bytes.toNatLE (scReduce (keccak256 (subaddrMsg w.privView major minor)))))) ≠ edIdentity) :
+    xmrSubaddress w nv snv minor major = .error .value := by
+  unfold xmrSubaddress
+  have h0 : ¬ (decide (minor = 0) && decide (major = 0)) = true := by
+    simp only [Bool.and_eq_true, decide_eq_true_eq]; exact hne
+  rw [if_neg h0, subaddr_refused_off_subgroup w minor major hm hM hne hb hD]
+  rfl
+
+/-- no point of small order is ever accepted as the operand of `a·D` / `Ed25519Point.__mul__`:
+`L` is odd, so the subgroup test fails for orders 2, 4 and 8 (and the identity is refused first) -/
+theorem noclamp_refuses_small_order (k : Nat) {T : EdPoint} (h : T ∈ edSmallOrder) :
+    edMulNoclamp k T = none := edMulNoclamp_small_order k h
+
+/-- exact acceptance condition of the libsodium primitive -/
+theorem noclamp_spec (k : Nat) (P r : EdPoint) :
+    edMulNoclamp k P = some r ↔
+      edNorm P ≠ edIdentity ∧ edMul edL P = edIdentity ∧
+        edMul (k % 2 ^ 255) P ≠ edIdentity ∧ r = edMul (k % 2 ^ 255) P :=
+  edMulNoclamp_eq_some_iff k P r
 
 /-! ### 4. the hashed index encoding is injective -/
 
